@@ -54,8 +54,9 @@ type Case struct {
 	N       int     `json:"n,omitempty"`       // goroutines (stress)
 	Rounds  int     `json:"rounds,omitempty"`
 	EType   int32   `json:"etype,omitempty"`
-	Kind    string  `json:"kind,omitempty"`  // volume: same-client | same-client-other-services | many-clients
-	Names   int     `json:"names,omitempty"` // which pair of client names and of service names the indices 0/1 stand for (see namePairs)
+	Kind    string  `json:"kind,omitempty"`   // volume: same-client | same-client-other-services | many-clients
+	Names   int     `json:"names,omitempty"`  // which pair of client names and of service names the indices 0/1 stand for (see namePairs)
+	Zone    int     `json:"zone_s,omitempty"` // the client time arrives as local time with this zone offset in seconds (a numeric offset in the GeneralizedTime): the same instant, but a time.Time in a location of its own per decoding
 }
 
 // namePairs: what client 0 / client 1 and service 0 / service 1 are called. The pairs differ in ways a cache key
@@ -89,6 +90,9 @@ func auth(base time.Time, c Case, o Op) (types.PrincipalName, types.Authenticato
 	}
 	if o.C > 1 || o.S > 1 {
 		cn, sv = []string{fmt.Sprintf("client%d", o.C)}, []string{"svc", fmt.Sprintf("host%d", o.S)}
+	}
+	if c.Zone != 0 {
+		ct = ct.In(time.FixedZone("", c.Zone)) // what the decoder hands over for "...+0130": a location made for this value
 	}
 	a := types.Authenticator{AVNO: 5, CRealm: "EXAMPLE.COM",
 		CName: types.PrincipalName{NameType: 1, NameString: append([]string{}, cn...)},
@@ -332,7 +336,10 @@ var settingsPairs = []struct {
 func evalAPReqSettings(c Case) evid.Verdict {
 	c01.SamplePAC()
 	sp := settingsPairs[c.N%len(settingsPairs)]
-	cs := c01.Base(c.EType, uint64(c.Rounds)*104729+uint64(c.N), "HTTP/svc.example.com")
+	cs := c01.Base(c.EType, uint64(c.Rounds)*104729+uint64(c.N)+uint64(c.Zone+50000)*15485863, "HTTP/svc.example.com")
+	if c.Zone != 0 {
+		cs.CTimeZone = time.Unix(0, 0).In(time.FixedZone("", c.Zone)).Format("-0700")
+	}
 	m, err := cs.Mint(c01.SamplePAC())
 	if err != nil {
 		return evid.Fail("harness", "mint: %v", err)
@@ -636,6 +643,7 @@ func TestProp(t *testing.T) {
 			}
 		}
 		c := Case{Mode: "seq", SkewMs: 300000, TOffUs: []int64{0, 1, 1000000}, Pre: ops}
+		c.Zone = rapid.SampledFrom([]int{0, 0, 0, 5400, -12600, 3600, 20700}).Draw(t, "zone")
 		nt := ""
 		if hasRepresentation(ops) {
 			nt = ntKey(c)
@@ -729,13 +737,28 @@ func TestProp(t *testing.T) {
 		}
 	}
 	// the same AP-REQ octets under two Settings values of one process
-	r.Rule("settings: the same AP-REQ octets presented to service.VerifyAPREQ twice under two Settings values (other MaxClockSkew, PAC decoding on/off): the second presentation must be refused as a replay")
+	r.Rule("settings: the same AP-REQ octets presented to service.VerifyAPREQ twice under two Settings values (other MaxClockSkew, PAC decoding on/off), and under the same settings with the authenticator's client time written as local time with a numeric zone offset (+0130, -0330, +0100, +0545, -0930): the second presentation must be refused as a replay")
 	for et := range ref.ETypes {
 		for pi := range settingsPairs {
 			c := Case{Mode: "apreq-settings", N: pi, Rounds: int(r.Seed())*100 + et, EType: ref.ETypes[et]}
 			r.Count(ntKey(c)+fmt.Sprint(pi, et), "mode:apreq-settings", "settings:"+settingsPairs[pi].name)
 			r.Sample("settings/"+settingsPairs[pi].name, c)
 			r.Violation("settings", c, Eval(c))
+		}
+		// the same octets twice when the authenticator's client time is written with a numeric zone offset
+		for zi, z := range []int{5400, -12600, 3600, 20700, -34200} {
+			c := Case{Mode: "apreq-settings", N: (zi + et) % 2 * 6, Rounds: int(r.Seed())*100 + et, EType: ref.ETypes[et], Zone: z}
+			r.Count(ntKey(c)+fmt.Sprint("zone", z, et), "mode:apreq-settings", "ctime-encoding:numeric-zone-offset")
+			r.Sample("settings/zone", c)
+			r.Violation("settings", c, Eval(c))
+		}
+	}
+	// cache level: every short history again with the client times arriving in a location of their own per presentation
+	for _, z := range []int{5400, -12600} {
+		for _, ops := range [][]Op{{{K: "present"}, {K: "present"}}, {{K: "present"}, {K: "cleanup"}, {K: "present"}}, {{K: "present"}, {K: "present", C: 1}, {K: "present"}}, {{K: "present", T: 1}, {K: "present"}, {K: "present", T: 1}, {K: "present"}}} {
+			c := Case{Mode: "seq", SkewMs: 300000, TOffUs: []int64{0, 1, 1000000}, Pre: ops, Zone: z}
+			r.Count(ntKey(c)+fmt.Sprint("zone", z), "mode:seq", "ctime-encoding:numeric-zone-offset")
+			r.Violation("seq", c, Eval(c))
 		}
 	}
 
